@@ -55,6 +55,7 @@ static void check_now() {
   for (unsigned i = 0; i < MAXOBJ; i++) if (i < nobj) PROP(objs[i].freed <= 1, "C06: a deferred deallocation never runs twice");
   PROP(qsbr_state::get_thread_count(qsbr::instance().get_state()) == nactive(), "C06: the reported registered-thread count equals started-or-resumed minus paused-or-exited threads");
 }
+static bool g_preempting;
 static void act(unsigned t, unsigned a) {
   if (a > 3) return;
   qsbr_per_thread& th = *T[t];
@@ -70,17 +71,26 @@ static void act(unsigned t, unsigned a) {
 #endif
   }
   else if (a == 2 && active[t]) { passed(t); busy[t] = true; th.qsbr_pause(); busy[t] = false; active[t] = false; }
-  else if (a == 3 && !active[t]) { th.qsbr_resume(); active[t] = true; }
+  else if (a == 3 && !active[t]) {
+    if (g_preempting) {
+      // register_thread() spins while an epoch change is in progress (threads-in-previous-epoch == 0 with threads registered).  If the
+      // preempted thread is the one changing the epoch, the schedule "the resume completes here" does not exist - the resuming thread
+      // waits until the preempted one continues, which is the schedule with a later preemption point.  Such a run ends here (reached).
+      const auto st = qsbr::instance().get_state();
+      if (qsbr_state::get_threads_in_previous_epoch(st) == 0 && qsbr_state::get_thread_count(st) > 0) { WITNESS(); ASSUME(false); }
+    }
+    th.qsbr_resume(); active[t] = true;
+  }
 }
 struct call { unsigned t, a; };       // a: 0 quiescent, 1 retire a fresh object, 2 pause (= exit), 3 resume
-static const call* g_script; static unsigned g_nscript; static bool g_fired;
-extern "C" void verif_interfere(void) { g_fired = true; for (unsigned i = 0; i < g_nscript; i++) { act(g_script[i].t, g_script[i].a); } }
+static const call* g_script; static unsigned g_nscript; static bool g_fired, g_fired_after;
+extern "C" void verif_interfere(void) { g_preempting = !g_fired_after; g_fired = true; for (unsigned i = 0; i < g_nscript; i++) { act(g_script[i].t, g_script[i].a); } g_preempting = false; }
 template <unsigned NP, unsigned NI, unsigned NS> static void scenario(unsigned nthreads, const call (&prefix)[NP], call A, const call (&interf)[NI], const call (&suffix)[NS], unsigned kmax, bool three_rounds) {
   for (unsigned t = 0; t < NT; t++) { active[t] = false; T[t] = nullptr; }
   for (unsigned t = 0; t < nthreads; t++) { T[t] = new qsbr_per_thread(); active[t] = true; }
   check_now();
   for (unsigned i = 0; i < NP; i++) { act(prefix[i].t, prefix[i].a); check_now(); }
-  g_script = interf; g_nscript = NI; g_fired = false;
+  g_script = interf; g_nscript = NI; g_fired = false; g_fired_after = false;
   (void)in_u8(); const std::uint64_t k = verif_fixed_k();
   ASSUME(k <= kmax);
   // thread A's call: its ghost effect (it passes a quiescent state / leaves) takes place when the call starts
@@ -88,7 +98,7 @@ template <unsigned NP, unsigned NI, unsigned NS> static void scenario(unsigned n
   act(A.t, A.a);
   verif_yield_disarm();
   PROP(verif_yield_seen() < kmax, "C05: the preemption index range covers every atomic access of the call (bound check)");
-  if (!g_fired) verif_interfere();          // not preempted: the others run afterwards
+  if (!g_fired) { g_fired_after = true; verif_interfere(); g_fired_after = false; }          // not preempted: the others run afterwards
   check_now();
   for (unsigned i = 0; i < NS; i++) { act(suffix[i].t, suffix[i].a); check_now(); }
   if (three_rounds) {
